@@ -1,5 +1,836 @@
-//! C02 — not built yet.
+//! C02 — macro parameters bind and substitute exactly as in TeX. DESIGN.md §3 C02.
+//! Engine: BEX. Subject: `texmacro::Macro::call`, `def.rs` (parameter/replacement text parsing), the KMP
+//! delimiter matcher. Oracles: `reftex::macros::macro_call` (tex.web §389-400 transliterated) and
+//! `reftex::macros::spec_call` (The TeXbook ch. 20 rules, declarative); both must agree on every case.
+//!
+//! Observation: `\xa\capture\m <call>\relax Z\END` – one `\expandafter` step performs exactly the macro
+//! call, `\capture` then records expansion + untouched rest verbatim (with category codes).
+
+mod mini;
+
+use mini::*;
+use reftex::macros::{self as mm, MacroDef, Tok};
+use serde_json::{json, Value};
+use std::sync::atomic::{AtomicU64, Ordering};
+use std::sync::Mutex;
+use vcore::{Acc, Ctx, Level};
+
+// ---------------------------------------------------------------- tokens
+
+const A: Tok = Tok::Ch('a', 11);
+const B: Tok = Tok::Ch('b', 11);
+const Z: Tok = Tok::Ch('Z', 11);
+const DOT: Tok = Tok::Ch('.', 12);
+const LB: Tok = Tok::Ch('{', 1);
+const RB: Tok = Tok::Ch('}', 2);
+const SP: Tok = Tok::Ch(' ', 10);
+const HASH: Tok = Tok::Ch('#', 6);
+const X: Tok = Tok::Cs("x");
+const LBR: Tok = Tok::Ch('[', 12);
+const RBR: Tok = Tok::Ch(']', 12);
+const RELAX: Tok = Tok::Cs("relax");
+const END: Tok = Tok::Cs("END");
+const CALL_ALPHA: [Tok; 7] = [A, B, DOT, LB, RB, SP, X];
+
+// ---------------------------------------------------------------- definitions
+
+#[derive(Clone, Copy, PartialEq, Eq, Debug)]
+enum Kind {
+    Def,
+    Gdef,
+    /// `{\gdef\m..}` – defined inside a group, called outside
+    GroupGdef,
+    GlobalDef,
+}
+impl Kind {
+    fn name(self) -> &'static str {
+        match self {
+            Kind::Def => "def",
+            Kind::Gdef => "gdef",
+            Kind::GroupGdef => "group-gdef",
+            Kind::GlobalDef => "global-def",
+        }
+    }
+    fn parse(s: &str) -> Kind {
+        match s {
+            "gdef" => Kind::Gdef,
+            "group-gdef" => Kind::GroupGdef,
+            "global-def" => Kind::GlobalDef,
+            _ => Kind::Def,
+        }
+    }
+}
+
+#[derive(Clone, Copy, Debug, PartialEq)]
+enum Piece {
+    T(Tok),
+    /// `#i`
+    P(u8),
+    /// `##`
+    HH,
+}
+
+#[derive(Clone, Debug)]
+struct DefSpec {
+    kind: Kind,
+    prefix: Vec<Tok>,
+    /// None = undelimited, Some(d) = delimited by d (without the brace of the `#{` form)
+    params: Vec<Option<Vec<Tok>>>,
+    /// the parameter text ends with `#{`
+    hash: bool,
+    body: Vec<Piece>,
+}
+
+impl DefSpec {
+    /// the tokens that follow `\def\m` in the source
+    fn def_tokens(&self) -> Vec<Tok> {
+        let mut v = self.prefix.clone();
+        for (i, p) in self.params.iter().enumerate() {
+            v.push(HASH);
+            v.push(Tok::Ch((b'1' + i as u8) as char, 12));
+            if let Some(d) = p {
+                v.extend_from_slice(d);
+            }
+        }
+        if self.hash {
+            v.push(HASH);
+        }
+        v.push(LB);
+        for p in &self.body {
+            match p {
+                Piece::T(t) => v.push(*t),
+                Piece::P(i) => {
+                    v.push(HASH);
+                    v.push(Tok::Ch((b'0' + *i) as char, 12));
+                }
+                Piece::HH => {
+                    v.push(HASH);
+                    v.push(HASH);
+                }
+            }
+        }
+        v.push(RB);
+        v
+    }
+    /// prefix and parameter kinds as the declarative model wants them (`#{` brace folded in)
+    fn effective(&self) -> (Vec<Tok>, Vec<Option<Vec<Tok>>>) {
+        let mut prefix = self.prefix.clone();
+        let mut params = self.params.clone();
+        if self.hash {
+            match params.last_mut() {
+                None => prefix.push(LB),
+                Some(Some(d)) => d.push(LB),
+                Some(p @ None) => *p = Some(vec![LB]),
+            }
+        }
+        (prefix, params)
+    }
+    fn json(&self) -> Value {
+        json!({
+            "kind": self.kind.name(),
+            "prefix": toks_json(&self.prefix),
+            "params": self.params.iter().map(|p| p.as_ref().map(|d| toks_json(d)).unwrap_or(Value::Null)).collect::<Vec<_>>(),
+            "hash_brace": self.hash,
+            "body": self.body.iter().map(|p| match p { Piece::T(t) => tok_json(*t), Piece::P(i) => format!("#{i}"), Piece::HH => "##".into() }).collect::<Vec<_>>(),
+        })
+    }
+    fn from_json(v: &Value) -> DefSpec {
+        DefSpec {
+            kind: Kind::parse(v["kind"].as_str().unwrap_or("def")),
+            prefix: toks_parse(&v["prefix"]),
+            params: v["params"].as_array().map(|a| a.iter().map(|p| if p.is_null() { None } else { Some(toks_parse(p)) }).collect()).unwrap_or_default(),
+            hash: v["hash_brace"].as_bool().unwrap_or(false),
+            body: v["body"]
+                .as_array()
+                .map(|a| {
+                    a.iter()
+                        .map(|p| {
+                            let s = p.as_str().unwrap_or("");
+                            if s == "##" {
+                                Piece::HH
+                            } else if s.len() == 2 && s.starts_with('#') {
+                                Piece::P(s.as_bytes()[1] - b'0')
+                            } else {
+                                Piece::T(tok_parse(s))
+                            }
+                        })
+                        .collect()
+                })
+                .unwrap_or_default(),
+        }
+    }
+}
+
+/// `[#1][#2]..[#n]` (`[]` for n = 0): every argument is visible and delimited by tokens outside the call alphabet.
+fn revealing_body(n: usize) -> Vec<Piece> {
+    if n == 0 {
+        return vec![Piece::T(LBR), Piece::T(RBR)];
+    }
+    let mut v = vec![];
+    for i in 1..=n {
+        v.push(Piece::T(LBR));
+        v.push(Piece::P(i as u8));
+        v.push(Piece::T(RBR));
+    }
+    v
+}
+
+/// Everything that is computed once per definition.
+struct DefCtx {
+    spec: DefSpec,
+    model: MacroDef,
+    /// source text of the definition (with `\def\m` etc.)
+    head: String,
+    eff_prefix: Vec<Tok>,
+    eff_params: Vec<Option<Vec<Tok>>>,
+    json: Value,
+}
+
+fn def_ctx(spec: DefSpec) -> Result<DefCtx, String> {
+    let toks = spec.def_tokens();
+    let (model, used) = mm::scan_def(&toks).map_err(|e| format!("model rejects the definition {}: {e:?}", mm::show(&toks)))?;
+    if used != toks.len() {
+        return Err(format!("model stops early in the definition {}", mm::show(&toks)));
+    }
+    let text = render(&toks, true).ok_or_else(|| format!("definition {} cannot be written as source text", mm::show(&toks)))?;
+    let head = match spec.kind {
+        Kind::Def => format!("\\def\\m{text}"),
+        Kind::Gdef => format!("\\gdef\\m{text}"),
+        Kind::GroupGdef => format!("{{\\gdef\\m{text}}}"),
+        Kind::GlobalDef => format!("\\global\\def\\m{text}"),
+    };
+    let (eff_prefix, eff_params) = spec.effective();
+    let json = spec.json();
+    Ok(DefCtx { spec, model, head, eff_prefix, eff_params, json })
+}
+
+// ---------------------------------------------------------------- one case
+
+static MODEL_DISAGREE: AtomicU64 = AtomicU64::new(0);
+/// replay mode prints what the oracle and the implementation said
+static SHOW: AtomicU64 = AtomicU64::new(0);
+static MODEL_DISAGREE_MSG: Mutex<Vec<String>> = Mutex::new(Vec::new());
+
+fn model_disagreement(msg: String) {
+    if MODEL_DISAGREE.fetch_add(1, Ordering::Relaxed) < 5 {
+        MODEL_DISAGREE_MSG.lock().unwrap().push(msg);
+    }
+}
+
+/// What the two models say about a call. `Ok((call, expected_capture))` when the call is in the
+/// property's domain.
+fn oracle(d: &DefCtx, call: &[Tok]) -> (Vec<Tok>, Result<(mm::Call, Vec<Tok>), String>) {
+    let mut full: Vec<Tok> = Vec::with_capacity(call.len() + 3);
+    full.extend_from_slice(call);
+    full.extend_from_slice(&[RELAX, Z, END]);
+    let tr = mm::macro_call(&d.model, &full, false);
+    let sp = mm::spec_call(&d.eff_prefix, &d.eff_params, &full);
+    match (&tr, &sp) {
+        (Ok(c), Some((args, used))) if c.args == *args && c.consumed == *used => {}
+        (Err(_), None) => {}
+        _ => model_disagreement(format!("def {} call {}: transliteration {:?} / declarative {:?}", d.head, mm::show(call), tr.as_ref().map(|c| (&c.args, c.consumed)), sp)),
+    }
+    let r = match tr {
+        Err(e) => Err(format!("{e:?}")),
+        Ok(c) => {
+            if c.consumed > call.len() + 2 {
+                Err("MatchSwallowsEND".to_string())
+            } else {
+                let mut want = c.expansion.clone();
+                want.extend_from_slice(&full[c.consumed..full.len() - 1]);
+                Ok((c, want))
+            }
+        }
+    };
+    (full, r)
+}
+
+fn run_case(d: &DefCtx, full: &[Tok], full_state: bool) -> (Outcome, String, &'static str) {
+    // through the lexer when the token string can be written as text, through \inject otherwise
+    let (src, injected, mode): (String, Vec<Tok>, &'static str) = match render(full, true) {
+        Some(t) => (format!("{}\\xa\\capture\\m{}", d.head, t), vec![], "text"),
+        None => {
+            let mut inj = vec![Tok::Cs("xa"), Tok::Cs("capture"), Tok::Cs("m")];
+            inj.extend_from_slice(full);
+            (format!("{}\\inject", d.head), inj, "inject")
+        }
+    };
+    let out = if full_state { run_full(&src, &injected, false) } else { run_m_macro_only(&src, &injected) };
+    (out, src, mode)
+}
+
+/// `distinct`: given the model's binding, is this case to be counted among the *distinct* non-trivial
+/// cases (false for re-runs and for cases another family or another index already covers).
+fn check_case(idx: u64, d: &DefCtx, call: &[Tok], full_state: bool, distinct: &dyn Fn(&mm::Call) -> bool, acc: &mut Acc) {
+    acc.eval();
+    let (full, want) = oracle(d, call);
+    let (out, src, mode) = run_case(d, &full, full_state);
+    let case = || json!({"def": d.json, "call": toks_json(call), "full_state": full_state, "mode": mode, "program": src, "call_readable": mm::show(call)});
+    if SHOW.load(Ordering::Relaxed) > 0 {
+        eprintln!("program : {src}\noracle  : {}\nobserved: {}", want.as_ref().map(|w| mm::show(&w.1)).unwrap_or_else(|e| format!("outside the domain ({e})")), out.show());
+    }
+    acc.count(if mode == "text" { "via_lexer" } else { "via_inject" });
+    match want {
+        Err(why) => {
+            // outside the property's domain: no panic, and a run that fails does so with a located error
+            match &out {
+                Outcome::Panic(p) => acc.fail(idx, case(), "no panic (the call does not match: any located error or recovery is acceptable)", p.describe(), format!("panic on a call the oracle classifies as {why}")),
+                Outcome::Cutoff => acc.cutoffs += 1,
+                Outcome::Done(r) => {
+                    if r.err.is_some() && !r.located {
+                        acc.fail(idx, case(), "an error with a position", out.show(), "error without any trace");
+                    }
+                }
+            }
+            acc.class(&format!("outside domain: oracle={why} impl={}", out.class()));
+        }
+        Ok((c, want)) => {
+            let f = &c.facts;
+            if c.args.iter().any(|a| !a.is_empty()) {
+                acc.count("matching_calls_with_a_nonempty_argument");
+                if distinct(&c) {
+                    acc.nontrivial();
+                }
+            }
+            let flags: [(&'static str, bool); 10] = [
+                ("several_groups_bound_to_delimited_parameter", f.several_groups_delimited),
+                ("delimiter_partially_matched_then_abandoned", f.partial_delimiter_abandoned),
+                ("delimiter_restarted_inside_abandoned_match", f.partial_delimiter_restarted),
+                ("leading_spaces_skipped_before_undelimited", f.spaces_skipped),
+                ("empty_group_argument", f.empty_group_argument),
+                ("empty_delimited_argument", f.empty_delimited),
+                ("braces_stripped_from_delimited_argument", f.stripped_delimited),
+                ("braces_stripped_from_undelimited_argument", f.stripped_undelimited),
+                ("brace_to_brace_argument_that_is_not_one_group", f.brace_to_brace_not_single),
+                ("hash_brace_form_matched", f.hash_brace),
+            ];
+            let mut bits = String::with_capacity(10);
+            for (name, on) in flags {
+                if on {
+                    acc.count(name);
+                }
+                bits.push(if on { '1' } else { '0' });
+            }
+            acc.count("matching_calls");
+            if call.contains(&Tok::Ch('a', 12)) {
+                acc.count("matching_call_with_delimiter_character_of_other_catcode");
+            }
+            match &out {
+                Outcome::Done(r) if r.err.is_none() && r.toks == want => {
+                    acc.class(&format!("match ok np={} flags={bits}", c.args.len()));
+                }
+                Outcome::Cutoff => acc.cutoffs += 1,
+                _ => {
+                    let args: Vec<String> = c.args.iter().map(|a| mm::show(a)).collect();
+                    acc.class(&format!("match DIFFERS np={} flags={bits} impl={}", c.args.len(), out.class()));
+                    acc.fail(idx, case(), mm::show(&want), out.show(), format!("the call matches (TeX binds {args:?}, {} tokens consumed) but the captured expansion + rest differs", c.consumed));
+                }
+            }
+        }
+    }
+}
+
+// ---------------------------------------------------------------- enumerators
+
+fn delims_full() -> Vec<Option<Vec<Tok>>> {
+    vec![None, Some(vec![DOT]), Some(vec![A, B]), Some(vec![A, A]), Some(vec![A, DOT]), Some(vec![X]), Some(vec![SP])]
+}
+fn delims_small() -> Vec<Option<Vec<Tok>>> {
+    vec![None, Some(vec![DOT]), Some(vec![A, B]), Some(vec![A, A])]
+}
+
+fn param_lists(kinds: &[Option<Vec<Tok>>], lens: std::ops::RangeInclusive<usize>) -> Vec<Vec<Option<Vec<Tok>>>> {
+    let mut out = vec![];
+    for n in lens {
+        let k = kinds.len() as u64;
+        for i in 0..k.pow(n as u32) {
+            out.push(vcore::digits(i, &vec![k; n]).into_iter().map(|j| kinds[j as usize].clone()).collect());
+        }
+    }
+    out
+}
+
+fn defs_for_strings(thorough: bool) -> Vec<DefSpec> {
+    let mut v = vec![];
+    let prefixes = [vec![], vec![A], vec![A, B]];
+    let mut lists = param_lists(&delims_full(), 0..=2);
+    if thorough {
+        lists.extend(param_lists(&delims_small(), 3..=3));
+    }
+    for prefix in &prefixes {
+        for params in &lists {
+            for hash in [false, true] {
+                v.push(DefSpec { kind: Kind::Def, prefix: prefix.clone(), params: params.clone(), hash, body: revealing_body(params.len()) });
+            }
+        }
+    }
+    v
+}
+
+fn u_shapes() -> Vec<Vec<Tok>> {
+    vec![vec![B], vec![LB, B, RB], vec![LB, RB], vec![LB, LB, B, RB, RB], vec![SP, B], vec![SP, SP, LB, B, RB], vec![X], vec![DOT], vec![LB, B, LB, RB, B, RB], vec![A]]
+}
+fn d_shapes(delim: &[Tok]) -> Vec<Vec<Tok>> {
+    let mut hidden = vec![LB];
+    hidden.extend_from_slice(delim);
+    hidden.push(RB);
+    vec![
+        vec![],
+        vec![B],
+        vec![LB, B, RB],
+        vec![LB, RB],
+        vec![LB, B, RB, LB, B, RB],
+        vec![LB, RB, LB, RB],
+        vec![LB, LB, B, RB, RB],
+        vec![SP, B],
+        vec![SP, LB, B, RB],
+        vec![LB, B, RB, SP],
+        vec![B, LB, B, RB],
+        vec![LB, B, RB, B],
+        vec![LB, B, RB, B, LB, B, RB],
+        vec![A],
+        hidden,
+        vec![X],
+        // the characters of the delimiters with other category codes: different tokens (injected, no source text gives them)
+        vec![Tok::Ch('a', 12), Tok::Ch('.', 11), Tok::Ch('b', 12)],
+    ]
+}
+
+/// A definition together with the argument menus of its parameters (one call per tuple).
+struct TupleDef {
+    ctx: DefCtx,
+    menus: Vec<Vec<Vec<Tok>>>,
+    count: u64,
+}
+fn tuple_def(spec: DefSpec, u_menu: &[Vec<Tok>], d_menu: &dyn Fn(&[Tok]) -> Vec<Vec<Tok>>) -> Result<TupleDef, String> {
+    let n = spec.params.len();
+    let menus: Vec<Vec<Vec<Tok>>> = spec
+        .params
+        .iter()
+        .enumerate()
+        .map(|(i, p)| match p {
+            None if spec.hash && i + 1 == n => d_menu(&[]),
+            None => u_menu.to_vec(),
+            Some(d) => d_menu(d),
+        })
+        .collect();
+    let menus: Vec<Vec<Vec<Tok>>> = menus
+        .into_iter()
+        .map(|m| {
+            let mut seen: Vec<Vec<Tok>> = vec![];
+            for x in m {
+                if !seen.contains(&x) {
+                    seen.push(x);
+                }
+            }
+            seen
+        })
+        .collect();
+    let count = menus.iter().map(|m| m.len() as u64).product::<u64>().max(1);
+    Ok(TupleDef { ctx: def_ctx(spec)?, menus, count })
+}
+fn tuple_call(t: &TupleDef, k: u64) -> (Vec<Tok>, Vec<u64>) {
+    let radices: Vec<u64> = t.menus.iter().map(|m| m.len() as u64).collect();
+    let digits = vcore::digits(k, &radices);
+    let mut call = t.ctx.spec.prefix.clone();
+    for (i, p) in t.ctx.spec.params.iter().enumerate() {
+        call.extend_from_slice(&t.menus[i][digits[i] as usize]);
+        if let Some(d) = p {
+            call.extend_from_slice(d);
+        }
+    }
+    if t.ctx.spec.hash {
+        call.extend_from_slice(&[LB, B, RB]);
+    }
+    (call, digits)
+}
+
+/// The call was built from one argument shape per parameter. It is counted as a distinct case only if
+/// TeX parses it back the way it was built (a token string has one parse, so two tuples that happen to
+/// give the same string are counted once at most).
+fn parsed_as_constructed(t: &TupleDef, digits: &[u64], c: &mm::Call) -> bool {
+    let n = t.ctx.spec.params.len();
+    for (i, p) in t.ctx.spec.params.iter().enumerate() {
+        let shape = &t.menus[i][digits[i] as usize];
+        let undelimited = p.is_none() && !(t.ctx.spec.hash && i + 1 == n);
+        let mut s: &[Tok] = shape;
+        if undelimited {
+            while s.first().map(|x| x.is_space_token()).unwrap_or(false) {
+                s = &s[1..];
+            }
+        }
+        if s.len() >= 2 && s[0].is_left_brace() && mm::matching_brace(s, 0) == Some(s.len() - 1) {
+            s = &s[1..s.len() - 1];
+        }
+        if c.args.get(i).map(|a| a.as_slice()) != Some(s) {
+            return false;
+        }
+    }
+    true
+}
+
+fn body_pieces(np: usize) -> Vec<Vec<Piece>> {
+    let mut v = vec![vec![Piece::T(Tok::Ch('x', 11))], vec![Piece::T(X)], vec![Piece::T(SP)], vec![Piece::HH], vec![Piece::T(LB), Piece::T(RB)]];
+    for i in 1..=np {
+        v.push(vec![Piece::P(i as u8)]);
+        v.push(vec![Piece::T(LB), Piece::P(i as u8), Piece::T(RB)]);
+    }
+    v
+}
+
+// ---------------------------------------------------------------- model self-validation
+
+/// The repository's own expectations (crates/texlang-stdlib/src/def.rs, `expansion_equality_tests`),
+/// replayed through both models. (test name, definition + call, expected output)
+const REPO_CASES: &[(&str, &str, &str)] = &[
+    ("one_undelimited_parameter_multiple_tokens", r"\def\A#1{a-#1-b}\A{123}", "a-123-b"),
+    ("two_undelimited_parameters", r"\def\A#1#2{#2-#1}\A56", "6-5"),
+    ("consume_prefix_correctly", r"\def\A fgh{567}\A fghi", "567i"),
+    ("one_undelimited_parameter_with_prefix", r"\def\A abc#1{y#1z}\A abcdefg", "ydzefg"),
+    ("one_delimited_parameter", r"\def\A #1xxx{y#1z}\A abcxxx", "yabcz"),
+    ("one_delimited_parameter_empty", r"\def\A #1xxx{y#1z}\A xxx", "yz"),
+    ("one_delimited_parameter_with_scope", r"\def\A #1xxx{#1}\A abc{123xxx}xxx", "abc{123xxx}"),
+    ("two_delimited_parameters_with_prefix", r"\def\A a#1c#2e{x#2y#1z}\A abcdef", "xdybzf"),
+    ("one_delimited_parameter_grouped_value", r"\def\A #1c{x#1y}\A {Hello}c", "xHelloy"),
+    ("parameter_brace_special_case", r"\def\A #{Mint says }\A{hello}", "Mint says {hello}"),
+    ("texbook_exercise_20_5_example_below", r"\def\a#1#{\hbox to #1}\a3pt{x}", r"\hbox to 3pt{x}"),
+    ("space_in_undelimited_param_1", r"\def\Hello#1#2{Hello-#1-#2-World}\Hello A B C", "Hello-A-B-World C"),
+    ("texbook_exercise_20_3_part_2", r"\def\row#1{(#1_1,\ldots,#1_n)}\row{{\bf x}}", r"({\bf x}_1,\ldots,{\bf x}_n)"),
+];
+
+fn self_validate() -> Result<(), String> {
+    for (name, src, want) in REPO_CASES {
+        let t = lex(src);
+        let (def, used) = mm::scan_def(&t[2..]).map_err(|e| format!("{name}: model cannot scan the definition: {e:?}"))?;
+        let rest = &t[2 + used..];
+        if rest.first() != Some(&t[1]) {
+            return Err(format!("{name}: the model's definition ends at the wrong token"));
+        }
+        let input = &rest[1..];
+        let c = mm::macro_call(&def, input, false).map_err(|e| format!("{name}: model says {e:?}"))?;
+        let mut got = c.expansion.clone();
+        got.extend_from_slice(&input[c.consumed..]);
+        if got != lex(want) {
+            return Err(format!("{name}: model gives {} but the repository's test expects {}", mm::show(&got), mm::show(&lex(want))));
+        }
+        // same through the declarative formulation: rebuild prefix / parameters from the scanned definition
+        let mut prefix = vec![];
+        let mut params: Vec<Option<Vec<Tok>>> = vec![];
+        for it in &def.params {
+            match it {
+                mm::PItem::Tok(x) => match params.last_mut() {
+                    None => prefix.push(*x),
+                    Some(p) => p.get_or_insert_with(Vec::new).push(*x),
+                },
+                mm::PItem::Match(_) => params.push(None),
+                mm::PItem::EndMatch => {}
+            }
+        }
+        match mm::spec_call(&prefix, &params, input) {
+            Some((args, used)) if args == c.args && used == c.consumed => {}
+            other => return Err(format!("{name}: declarative model gives {other:?}, transliteration {:?}", (&c.args, c.consumed))),
+        }
+    }
+    // the render/lex pair used to write cases as source text
+    for s in ["a b\\x .{}", "\\x a", "#1 #2{[#1]}"] {
+        if render(&lex(s), false).map(|r| lex(&r)) != Some(lex(s)) {
+            return Err(format!("render/lex round trip fails on {s:?}"));
+        }
+    }
+    Ok(())
+}
+
+// ---------------------------------------------------------------- main
+
+fn after_family(ctx: &mut Ctx) {
+    let n = MODEL_DISAGREE.swap(0, Ordering::Relaxed);
+    if n > 0 {
+        let msgs = std::mem::take(&mut *MODEL_DISAGREE_MSG.lock().unwrap());
+        ctx.machinery_error(format!("the two reference formulations (§389-400 transliteration / TeXbook ch. 20 rules) disagree on {n} case(s); first: {}", msgs.join(" || ")));
+    }
+}
+
+fn build_ctxs(specs: Vec<DefSpec>, ctx: &mut Ctx) -> Vec<DefCtx> {
+    let mut out = vec![];
+    for s in specs {
+        match def_ctx(s) {
+            Ok(c) => out.push(c),
+            Err(e) => ctx.machinery_error(e),
+        }
+    }
+    out
+}
+
 fn main() {
-    eprintln!("c02: check not built yet");
-    std::process::exit(2);
+    let mut ctx = Ctx::new("C02", Level::Exploration);
+    ctx.assume("domain: calls that the oracle says match the definition AND whose match ends before the sentinel `\\relax Z\\END` is exhausted; on every other token string (mismatch, extra }, input ends inside an argument) only 'no panic, errors carry a position' is required");
+    ctx.assume("category codes are plain TeX's; no \\par in arguments, no \\long/\\outer (DESIGN C02 X); the space token is (10,' ')");
+    ctx.assume("trusted: reftex::macros (scan_def §473-479, macro_call §389-400) cross-checked on every case against the declarative rules of The TeXbook ch. 20 (spec_call) and validated on 13 expectations copied from the repository's def.rs tests");
+    ctx.assume("token strings that no source text can produce (a space token after a space token or after a control word) are put on the input by a harness primitive (\\inject); all others go through the real lexer");
+    if let Err(e) = self_validate() {
+        ctx.machinery_error(format!("model self-validation failed: {e}"));
+        ctx.finish("not run");
+    }
+
+    if let Some((_fam, case)) = ctx.replay_case() {
+        let mut acc = Acc::default();
+        SHOW.store(1, Ordering::Relaxed);
+        match def_ctx(DefSpec::from_json(&case["def"])) {
+            Ok(d) => check_case(0, &d, &toks_parse(&case["call"]), case["full_state"].as_bool().unwrap_or(false), &|_| true, &mut acc),
+            Err(e) => {
+                eprintln!("replay: {e}");
+                std::process::exit(2);
+            }
+        }
+        after_family(&mut ctx);
+        ctx.finish_replay(acc);
+    }
+    let thorough = !ctx.quick();
+    let f1_maxlen: usize = ctx.pick(5, 7);
+
+    // F1: every call string over the 7-token alphabet against every parameter text
+    {
+        let specs = defs_for_strings(thorough);
+        let defs = build_ctxs(specs, &mut ctx);
+        let maxlen = f1_maxlen as u32;
+        let ncalls = vcore::strings_upto(7, maxlen);
+        let n = defs.len() as u64 * ncalls;
+        let dref = &defs;
+        ctx.family(
+            "calls-all-strings",
+            &format!(
+                "{} definitions (prefix in {{-, a, ab}} x 0-2 parameters each undelimited or delimited by . / ab / aa / a. / \\x / space{} x with/without the trailing #{{ form; body [#1][#2]..) x every token string of length <= {maxlen} over {{a b . {{ }} space \\x}} ({ncalls} strings, unbalanced ones included), followed by \\relax Z",
+                defs.len(),
+                if thorough { "; 3 parameters over {undelimited . ab aa}" } else { "" }
+            ),
+            n,
+            |i, acc| {
+                let d = &dref[(i / ncalls) as usize];
+                let call: Vec<Tok> = vcore::nth_string(7, i % ncalls).into_iter().map(|j| CALL_ALPHA[j as usize]).collect();
+                check_case(i, d, &call, false, &|_| true, acc);
+                if i % 1_000_003 == 77 {
+                    acc.sample(i, || json!({"program": format!("{}\\xa\\capture\\m<{}>\\relax Z\\END", d.head, mm::show(&call))}));
+                }
+            },
+        );
+        after_family(&mut ctx);
+    }
+
+    // F2: argument tuples by shape
+    {
+        let kinds: Vec<Option<Vec<Tok>>> = vec![None, Some(vec![DOT]), Some(vec![A, B]), Some(vec![A, A]), Some(vec![X]), Some(vec![SP])];
+        let maxp = ctx.pick(3usize, 4usize);
+        let mut tds: Vec<TupleDef> = vec![];
+        for prefix in [vec![], vec![A]] {
+            for params in param_lists(&kinds, 1..=maxp) {
+                for hash in [false, true] {
+                    let spec = DefSpec { kind: Kind::Def, prefix: prefix.clone(), params: params.clone(), hash, body: revealing_body(params.len()) };
+                    match tuple_def(spec, &u_shapes(), &|d| d_shapes(d)) {
+                        Ok(t) => tds.push(t),
+                        Err(e) => ctx.machinery_error(e),
+                    }
+                }
+            }
+        }
+        let mut offs = Vec::with_capacity(tds.len() + 1);
+        let mut n = 0u64;
+        for t in &tds {
+            offs.push(n);
+            n += t.count;
+        }
+        let (tref, oref) = (&tds, &offs);
+        ctx.family(
+            "argument-tuples",
+            &format!(
+                "{} definitions (prefix in {{-, a}} x 1-{maxp} parameters each undelimited or delimited by . / ab / aa / \\x / space x with/without #{{) x every tuple of argument shapes: 10 shapes for an undelimited parameter (token, group, {{}}, nested group, 1-2 leading spaces, \\x, ...), 17 for a delimited one (empty, token, one group, {{}}, two groups, {{}}{{}}, nested, leading/trailing space around a group, token+group, group+token, group+token+group, partial delimiter, delimiter hidden in a group, \\x, the delimiter's characters with other category codes)",
+                tds.len()
+            ),
+            n,
+            |i, acc| {
+                let di = oref.partition_point(|o| *o <= i) - 1;
+                let t = &tref[di];
+                let (call, digits) = tuple_call(t, i - oref[di]);
+                check_case(i, &t.ctx, &call, false, &|c| call.len() > f1_maxlen && parsed_as_constructed(t, &digits, c), acc);
+                if i % 500_009 == 11 {
+                    acc.sample(i, || json!({"definition": t.ctx.head, "shape_indices": digits, "call": mm::show(&call)}));
+                }
+            },
+        );
+        after_family(&mut ctx);
+    }
+
+    // F3: nine parameters
+    {
+        let dot = Some(vec![DOT]);
+        let ab = Some(vec![A, B]);
+        let patterns: Vec<(&str, Vec<Option<Vec<Tok>>>)> = vec![
+            ("all undelimited", vec![None; 9]),
+            ("all delimited by .", vec![dot.clone(); 9]),
+            ("undelimited/. alternating", (0..9).map(|i| if i % 2 == 0 { None } else { dot.clone() }).collect()),
+            ("./undelimited alternating", (0..9).map(|i| if i % 2 == 1 { None } else { dot.clone() }).collect()),
+            ("all delimited by ab", vec![ab.clone(); 9]),
+            ("8 undelimited then .", (0..9).map(|i| if i < 8 { None } else { dot.clone() }).collect()),
+        ];
+        let u_menu: Vec<Vec<Tok>> = ctx.pick(vec![vec![B], vec![LB, B, RB], vec![SP, LB, RB]], vec![vec![B], vec![LB, B, RB], vec![SP, LB, RB], vec![LB, LB, B, RB, RB], vec![X]]);
+        let d_menu: Vec<Vec<Tok>> = ctx.pick(vec![vec![], vec![LB, B, RB], vec![LB, B, RB, LB, RB]], vec![vec![], vec![LB, B, RB], vec![LB, B, RB, LB, RB], vec![A], vec![SP, LB, B, RB]]);
+        let reversed: Vec<Piece> = (1..=9u8).rev().map(Piece::P).collect();
+        let mut tds: Vec<TupleDef> = vec![];
+        for (_, params) in &patterns {
+            for hash in [false, true] {
+                for body in [revealing_body(9), reversed.clone()] {
+                    let spec = DefSpec { kind: Kind::Def, prefix: vec![], params: params.clone(), hash, body };
+                    match tuple_def(spec, &u_menu, &|_| d_menu.clone()) {
+                        Ok(t) => tds.push(t),
+                        Err(e) => ctx.machinery_error(e),
+                    }
+                }
+            }
+        }
+        let mut offs = Vec::with_capacity(tds.len() + 1);
+        let mut n = 0u64;
+        for t in &tds {
+            offs.push(n);
+            n += t.count;
+        }
+        let (tref, oref) = (&tds, &offs);
+        ctx.family(
+            "nine-parameters",
+            &format!(
+                "{} definitions with nine parameters ({}; each with/without #{{; bodies [#1]..[#9] and #9#8..#1) x every 9-tuple over {} argument shapes per parameter",
+                tds.len(),
+                patterns.iter().map(|p| p.0).collect::<Vec<_>>().join(", "),
+                u_menu.len()
+            ),
+            n,
+            |i, acc| {
+                let di = oref.partition_point(|o| *o <= i) - 1;
+                let t = &tref[di];
+                let (call, digits) = tuple_call(t, i - oref[di]);
+                check_case(i, &t.ctx, &call, false, &|c| call.len() > f1_maxlen && parsed_as_constructed(t, &digits, c), acc);
+                acc.count("nine_parameter_calls");
+                if i % 300_007 == 5 {
+                    acc.sample(i, || json!({"definition": t.ctx.head, "shape_indices": digits, "call": mm::show(&call)}));
+                }
+            },
+        );
+        after_family(&mut ctx);
+    }
+
+    // F4: replacement texts
+    {
+        let maxpieces = ctx.pick(3u32, 4u32);
+        let dot = Some(vec![DOT]);
+        let ab = Some(vec![A, B]);
+        let ptexts: Vec<(Vec<Tok>, Vec<Option<Vec<Tok>>>, bool)> = vec![
+            (vec![], vec![], false),
+            (vec![A], vec![], true),
+            (vec![], vec![None], false),
+            (vec![], vec![dot.clone()], false),
+            (vec![], vec![None], true),
+            (vec![], vec![None, None], false),
+            (vec![], vec![dot.clone(), None], false),
+            (vec![A], vec![None, ab.clone()], true),
+        ];
+        // three argument tuples per parameter text, by position: (for undelimited, for delimited)
+        let arg_sets: [(Vec<Tok>, Vec<Tok>); 3] = [(vec![B], vec![B]), (vec![LB, B, RB], vec![LB, B, RB, LB, RB]), (vec![SP, LB, RB], vec![])];
+        let kinds = [Kind::Def, Kind::Gdef, Kind::GroupGdef, Kind::GlobalDef];
+        // index space: ptext x kind x body x argset
+        let mut items: Vec<(usize, Vec<Vec<Piece>>)> = vec![];
+        for (pi, (_, params, _)) in ptexts.iter().enumerate() {
+            items.push((pi, body_pieces(params.len())));
+        }
+        let mut offs = vec![];
+        let mut n = 0u64;
+        for (_, pieces) in &items {
+            offs.push(n);
+            n += vcore::strings_upto(pieces.len() as u64, maxpieces) * kinds.len() as u64 * arg_sets.len() as u64;
+        }
+        let (iref, oref, pref, aref) = (&items, &offs, &ptexts, &arg_sets);
+        ctx.family(
+            "replacement-texts",
+            &format!("8 parameter texts (0-2 parameters, prefix, #{{) x \\def / \\gdef / {{\\gdef}} called outside the group / \\global\\def x every replacement text of <= {maxpieces} pieces over {{x, \\x, space, ##, {{}}, #i, {{#i}}}} x 3 argument tuples"),
+            n,
+            |i, acc| {
+                let ii = oref.partition_point(|o| *o <= i) - 1;
+                let (pi, pieces) = &iref[ii];
+                let (prefix, params, hash) = &pref[*pi];
+                let d = vcore::digits(i - oref[ii], &[vcore::strings_upto(pieces.len() as u64, maxpieces), kinds.len() as u64, aref.len() as u64]);
+                let body: Vec<Piece> = vcore::nth_string(pieces.len() as u64, d[0]).into_iter().flat_map(|j| pieces[j as usize].clone()).collect();
+                let spec = DefSpec { kind: kinds[d[1] as usize], prefix: prefix.clone(), params: params.clone(), hash: *hash, body };
+                if render(&spec.def_tokens(), true).is_none() {
+                    // two space tokens in a row, or a space token after \x, cannot be written in a definition's source text
+                    acc.skipped += 1;
+                    return;
+                }
+                let dc = match def_ctx(spec) {
+                    Ok(c) => c,
+                    Err(e) => {
+                        model_disagreement(e);
+                        return;
+                    }
+                };
+                let (ua, da) = &aref[d[2] as usize];
+                let mut call = prefix.clone();
+                for p in params {
+                    match p {
+                        None => call.extend_from_slice(ua),
+                        Some(dl) => {
+                            call.extend_from_slice(da);
+                            call.extend_from_slice(dl);
+                        }
+                    }
+                }
+                if *hash {
+                    call.extend_from_slice(&[LB, B, RB]);
+                }
+                if dc.spec.body.iter().any(|p| *p == Piece::HH) {
+                    acc.count("double_hash_in_replacement_text");
+                }
+                if dc.spec.kind != Kind::Def {
+                    acc.count("gdef_or_global_def");
+                }
+                check_case(i, &dc, &call, false, &|_| true, acc);
+                if i % 40_009 == 3 {
+                    acc.sample(i, || json!({"definition": dc.head, "call": mm::show(&call)}));
+                }
+            },
+        );
+        after_family(&mut ctx);
+    }
+
+    // F5: wiring conformance – a slice of F1 on the full harness state (all stdlib components and built-ins)
+    {
+        let specs = defs_for_strings(false);
+        let defs = build_ctxs(specs, &mut ctx);
+        let maxlen = ctx.pick(2u32, 4u32);
+        let ncalls = vcore::strings_upto(7, maxlen);
+        let n = defs.len() as u64 * ncalls;
+        let dref = &defs;
+        ctx.family("full-state-slice", &format!("the {} definitions of calls-all-strings (<= 2 parameters) x every call string of length <= {maxlen}, on vtex::HState (full stdlib state and built-ins, ~250 us per VM) instead of the minimal state", defs.len()), n, |i, acc| {
+            let d = &dref[(i / ncalls) as usize];
+            let call: Vec<Tok> = vcore::nth_string(7, i % ncalls).into_iter().map(|j| CALL_ALPHA[j as usize]).collect();
+            check_case(i, d, &call, true, &|_| false, acc);
+            acc.count("full_state_runs");
+        });
+        after_family(&mut ctx);
+    }
+
+    ctx.require("several_groups_bound_to_delimited_parameter", "a delimited parameter received an argument made of two or more groups");
+    ctx.require("brace_to_brace_argument_that_is_not_one_group", "an argument starts with { and ends with } without being a single group (the D3 shape)");
+    ctx.require("delimiter_partially_matched_then_abandoned", "a proper prefix of the delimiter matched at depth 0 and was then contributed to the argument (§397)");
+    ctx.require("delimiter_restarted_inside_abandoned_match", "a self-overlapping delimiter re-started inside the abandoned tokens (the KMP fallback path)");
+    ctx.require("leading_spaces_skipped_before_undelimited", "space tokens were skipped before an undelimited argument (§393)");
+    ctx.require("empty_group_argument", "an argument written {} (empty after brace stripping)");
+    ctx.require("empty_delimited_argument", "a delimited argument that is empty because the delimiter follows at once");
+    ctx.require("braces_stripped_from_delimited_argument", "outer braces removed from a delimited argument");
+    ctx.require("braces_stripped_from_undelimited_argument", "outer braces removed from an undelimited argument");
+    ctx.require("hash_brace_form_matched", "a call of a macro whose parameter text ends with #{");
+    ctx.require("matching_call_with_delimiter_character_of_other_catcode", "a matching call whose argument contains the delimiter's character with another category code (must not end the argument)");
+    ctx.require("nine_parameter_calls", "calls of nine-parameter macros");
+    ctx.require("double_hash_in_replacement_text", "## in a replacement text");
+    ctx.require("gdef_or_global_def", "definitions made with \\gdef / \\global\\def");
+    ctx.require("via_lexer", "calls written as source text");
+    ctx.require("via_inject", "calls that only exist as token lists");
+    ctx.require("full_state_runs", "cases re-run on the full vtex::HState");
+    ctx.finish("every (definition, call) pair of the families is run on a fresh VM; non-trivial = the oracle says the call matches, the match ends before the sentinel is used up, and at least one argument is non-empty (counter matching_calls_with_a_nonempty_argument); distinct_nontrivial counts such a case once: cases of the full-state slice are re-runs and are not counted, a tuple-built call is counted only if it is longer than every string of calls-all-strings and TeX parses it back into the shapes it was built from. All matching calls are compared token by token; all other strings are checked for 'no panic, located error'");
 }
